@@ -2,7 +2,8 @@
 //! as the readable reference and is cross-checked against this one).
 //!
 //! cmd "net": {kinds:[0|1|2..], fibers:[[[op,chan],..],..], wrap:[f,i]|null}
-//!   op: 0 send, 1 recv, 2 close; kind: 0 sync, n>0 buffered with capacity n.
+//!   op: 0 send, 1 recv, 2 close, 3 launch (the second field is then the fiber that is launched; fibers no script
+//!   launches are launched by main before its first operation); kind: 0 sync, n>0 buffered with capacity n.
 //! The program text is generated here, run on the real VM, and the printed
 //! completion lines are replayed against the model.
 
@@ -23,6 +24,7 @@ struct State {
   pcs: Vec<u8>,
   chans: Vec<Chan>,
   rel: u32, // bitset of released synchronous senders
+  started: u32, // bitset of launched fibers
 }
 
 #[derive(Clone, Copy, PartialEq, Eq, Debug)]
@@ -36,6 +38,8 @@ enum Why {
   BufSend,
   /// receive of a parked synchronous offer
   SyncRecv,
+  /// a synchronous sender can place its offer (the channel holds no other offer)
+  Offer,
 }
 
 #[derive(Clone, PartialEq, Eq, Debug)]
@@ -70,18 +74,46 @@ impl Net {
       pcs: vec![0; self.fibers.len()],
       chans: self.kinds.iter().map(|_| Chan { q: vec![], closed: false, offer: None }).collect(),
       rel: 0,
+      started: self.started_at_init(),
     }
+  }
+
+  /// main and every fiber that no script launches
+  fn started_at_init(&self) -> u32 {
+    let mut launched_later = 0u32;
+    for s in &self.fibers {
+      for (op, j) in s {
+        if *op == 3 {
+          launched_later |= 1 << *j;
+        }
+      }
+    }
+    let mut st = 0u32;
+    for f in 0..self.fibers.len() {
+      if launched_later & (1 << f) == 0 {
+        st |= 1 << f;
+      }
+    }
+    st
   }
 
   fn steps(&self, st: &State, out: &mut Vec<(Ev, State, Why)>) {
     out.clear();
     for (f, s) in self.fibers.iter().enumerate() {
       let i = st.pcs[f] as usize;
-      if i >= s.len() {
+      if i >= s.len() || st.started & (1 << f) == 0 {
         continue;
       }
       let (op, c) = s[i];
       let c = c as usize;
+      if op == 3 {
+        // launch: the child becomes runnable, the parent goes on
+        let mut n = st.clone();
+        n.pcs[f] += 1;
+        n.started |= 1 << c;
+        out.push((Ev::Done(f as u8, i as u8, 3, None), n, Why::Plain));
+        continue;
+      }
       let ch = &st.chans[c];
       let sync = self.kinds[c] == 0;
       let adv = |st: &State| {
@@ -108,7 +140,7 @@ impl Net {
             } else if ch.offer.is_none() {
               let mut n = st.clone();
               n.chans[c].offer = Some((f as u8, val(f, i)));
-              out.push((Ev::Tau, n, Why::Plain));
+              out.push((Ev::Tau, n, Why::Offer));
             }
           } else if ch.closed {
             out.push((Ev::Err(f as u8, i as u8), st.clone(), Why::Closed));
@@ -217,6 +249,7 @@ impl Net {
           "s" => 0u8,
           "r" => 1,
           "c" => 2,
+          "l" => 3,
           _ => return None,
         };
         let v = match p.get(3) {
@@ -269,6 +302,7 @@ impl Net {
         let mut all_bufrecv = true;
         let mut all_bufsend = true;
         let mut all_syncrecv = true;
+        let mut all_some = true;
         for s in &set {
           self.steps(s, &mut buf);
           if buf.is_empty() && (s.pcs[0] as usize) < main_len {
@@ -289,6 +323,9 @@ impl Net {
           if !buf.iter().any(|(_, _, w)| *w == Why::SyncRecv) {
             all_syncrecv = false;
           }
+          if !buf.iter().any(|(_, _, w)| *w != Why::Plain) {
+            all_some = false;
+          }
           buf.clear();
         }
         if !legit {
@@ -302,6 +339,9 @@ impl Net {
             "bufsend"
           } else if all_syncrecv {
             "syncrecv"
+          } else if all_some {
+            // every state consistent with the trace has a parked fiber whose operation is enabled, but not the same kind in all of them
+            "mixed"
           } else {
             "other"
           };
@@ -332,6 +372,7 @@ impl Net {
       let mut st = match op {
         0 => format!("c{c} <- '{}'; print('{f} {i} s');", val_name(val(f, i))),
         1 => format!("let x{i} = <- c{c}; print('{f} {i} r ' + (x{i} == nil ? 'nil' : x{i}));"),
+        3 => format!("launch f{c}({}); print('{f} {i} l');", (0..self.kinds.len()).map(|k| format!("c{k}")).collect::<Vec<_>>().join(", ")),
         _ => format!("c{c}.close(); print('{f} {i} c');"),
       };
       if wrap == Some(i) {
@@ -357,8 +398,11 @@ impl Net {
       let w = wrap.and_then(|(wf, wi)| if wf == f { Some(wi) } else { None });
       l.push(format!("fn f{f}({params}) {{ {} }}", self.body(f, w)));
     }
+    let at_init = self.started_at_init();
     for f in 1..self.fibers.len() {
-      l.push(format!("launch f{f}({params});"));
+      if at_init & (1 << f) != 0 {
+        l.push(format!("launch f{f}({params});"));
+      }
     }
     let w = wrap.and_then(|(wf, wi)| if wf == 0 { Some(wi) } else { None });
     l.push(self.body(0, w));
